@@ -75,7 +75,40 @@ pub fn judge(case: &Case) -> Verdict {
     }
 }
 
+fn representative_items() -> Vec<Case> {
+    let d = deck();
+    let mut items = Vec::new();
+    for k in 0..10usize {
+        let w: Vec<u32> = (0..5).map(|i| d[(k * 5 + i * (k % 4 + 1)) % 52].word()).collect();
+        if distinct_cards(&w).is_some() {
+            for e in ENTRIES {
+                items.push(Case::w32(e, &w));
+            }
+        }
+    }
+    // one hand per category, spades-heavy and mixed
+    let c = |r: u8, s: u8| crate::oracle::cards::Card::new(r, s).word();
+    for h in [[c(12, 3), c(11, 3), c(10, 3), c(9, 3), c(8, 3)], [c(12, 3), c(12, 2), c(12, 1), c(12, 0), c(11, 3)], [c(5, 3), c(5, 2), c(5, 1), c(3, 0), c(3, 3)], [c(12, 1), c(9, 1), c(7, 1), c(4, 1), c(2, 1)], [c(12, 0), c(3, 1), c(2, 2), c(1, 3), c(0, 0)], [c(5, 3), c(3, 2), c(2, 1), c(1, 0), c(0, 3)]] {
+        for e in ENTRIES {
+            items.push(Case::w32(e, &h));
+        }
+    }
+    items
+}
+
 pub fn run(ctx: &Ctx, rep: &mut Report) {
+    if ctx.probe {
+        if let Some((i, reps)) = super::repeat_probe_request() {
+            let items = representative_items();
+            if i < items.len() {
+                super::repeat_probe_body(rep, judge, &items[i], reps);
+            }
+        }
+        return;
+    }
+    if ctx.shard.is_none() {
+        super::cold_repeat_probe(ctx, rep, representative_items().len(), 512);
+    }
     if let Some((k, n)) = ctx.shard {
         super::history::sharded_pairs(rep, 5, false, ctx.tier.thorough(), ctx.lean, k, n);
         return;
@@ -220,16 +253,7 @@ pub fn run(ctx: &Ctx, rep: &mut Report) {
     }
     {
         // representative cases through the canonical judge, in all ordered pairs (also audits the judge itself)
-        let mut items = Vec::new();
-        for k in 0..10usize {
-            let w: Vec<u32> = (0..5).map(|i| d[(k * 5 + i * (k % 4 + 1)) % 52].word()).collect();
-            if distinct_cards(&w).is_some() {
-                for e in ENTRIES {
-                    items.push(Case::w32(e, &w));
-                }
-            }
-        }
-        super::history2(rep, judge, &items);
+        super::history2(rep, judge, &representative_items());
     }
     // call sequences: a hidden memo / cache would answer every single input correctly and fail after a predecessor
     super::history::space(rep, 5, false, ctx.tier.thorough());
